@@ -86,7 +86,7 @@ without antecedent-moisture adjustment, where the effective curve number is an o
 theorem cn_adjust_zero_is_neutral (F : Fn α) (p : α) (cells : List (Cell α)) (daySub : Nat)
     (zBund soilCN zCN : α) :
     rainPartition F p cells daySub false false zBund (cnAdjArg false 0) soilCN false zCN =
-      some { runoff := (scsSplit p soilCN).1, infl := (scsSplit p soilCN).2, daySub := 0,
+      some { runoff := (scsSplit F p soilCN).1, infl := (scsSplit F p soilCN).2, daySub := 0,
              cn := soilCN } :=
   rainPartition_cnadj_zero F p cells daySub zBund soilCN zCN
 
